@@ -26,7 +26,8 @@ RULE = (
     "the run is repeated with a crash injected before EVERY step j (unflushed data lost, completed steps persist) and a fresh "
     "un-shimmed auto_load must raise or equal the reference. Sub-check interleave: 2-3 virtual processes auto-loading the same "
     "FASTA, stepped one file operation at a time by a Hypothesis-drawn schedule (readers see the flushed prefix of a file "
-    "being written); every process's result and a final fresh load must equal the reference or raise. Non-trivial = an "
+    "being written); every process's result and a final fresh load must equal the reference or raise. Sub-check "
+    "interleave_systematic enumerates ALL schedules of 3 processes within a preemption bound (complete for the bound). Non-trivial = an "
     "auto_load following a rewrite/deletion with the other cache file still present (histories); a crash point after the first "
     "cache-file operation (crash); a schedule with >= 1 switch between processes while cache files are written (interleave); "
     "Sub-check roundtrip: cold vs warm load over the full FASTA domain. distinct by SHA-1."
@@ -376,6 +377,35 @@ def body_interleave(case, rec):
         shutil.rmtree(work, ignore_errors=True)
 
 
+def systematic_cases(tier, shard, nshards):
+    """
+    Bounded-preemption enumeration (complete for the stated bound): 3 identical virtual processes,
+    schedules of up to 4 segments [process, n] with at most K segments of bounded length n in 1..L
+    (the others run to completion), process symmetry removed.
+    """
+    import itertools
+
+    K, L = (2, 12) if tier == "quick" else (3, 13)
+    initials = ["none", "stale"] if tier == "quick" else ["none", "stale", "only_agp", "only_fai", "valid"]
+    orders = [[0, 1, a, b] for a in (0, 2) for b in (0, 1, 2) if b != a]
+    k = 0
+    for initial in initials:
+        for order in orders:
+            for bounded in itertools.chain.from_iterable(itertools.combinations(range(4), r) for r in range(K + 1)):
+                for lens in itertools.product(range(1, L + 1), repeat=len(bounded)):
+                    k += 1
+                    if k % nshards != shard:
+                        continue
+                    seg = [[p, None] for p in order]
+                    for i, n in zip(bounded, lens):
+                        seg[i][1] = n
+                    yield {"fasta": SMALL_FASTA, "other": OTHER_FASTA, "initial": initial, "chunk": 8192, "procs": 3, "schedule": seg}
+
+
+SMALL_FASTA = {"records": [["a1", "", "ACGTNNAC", 4, "\n"], ["b2", " d", "GG", 60, "\n"]], "final_newline": True}
+OTHER_FASTA = {"records": [["a1", "", "TTTT", 4, "\n"]], "final_newline": True}
+
+
 # --------------------------------------------------------------------------
 # (d) cold vs warm over the full FASTA domain (names starting with '#', empty records included)
 
@@ -462,6 +492,9 @@ SUBS = [
         budget={"quick": 160, "thorough": 3000}, desc="every crash point of an indexing run x initial cache states x flush sizes, then a fresh load"),
     Sub("interleave", kind="hyp", strategy=interleave_cases, body=body_interleave,
         budget={"quick": 1600, "thorough": 40000}, desc="2-3 virtual processes auto-loading one FASTA under drawn schedules at file-operation granularity"),
+    Sub("interleave_systematic", kind="enum", cases=systematic_cases, body=body_interleave, exhaustive=True,
+        budget={"quick": 1, "thorough": 1},
+        desc="ALL schedules of 3 processes with <= 4 segments and <= 2 (quick) / 3 (thorough) bounded-length segments (1..12/13 operations), initial cache none/stale (quick) + only one file / valid (thorough)"),
     Sub("roundtrip", kind="hyp", strategy=roundtrip_cases, body=body_roundtrip,
         budget={"quick": 1600, "thorough": 30000}, desc="cold load vs warm load over the full FASTA domain (two listed findings excluded by predicate)"),
 ]
